@@ -33,13 +33,14 @@ func emptyTimer() *time.Timer {
 }
 
 func resolveSource(s string, matches []string, query string) string {
+	// substitute in a single pass, so that inserted values are never scanned again
+	oldnew := make([]string, 0, 2*len(matches)+2)
 	for i := len(matches) - 1; i >= 1; i-- {
-		s = strings.ReplaceAll(s, "$G"+strconv.FormatInt(int64(i), 10), matches[i])
+		oldnew = append(oldnew, "$G"+strconv.FormatInt(int64(i), 10), matches[i])
 	}
+	oldnew = append(oldnew, "$MTX_QUERY", query)
 
-	s = strings.ReplaceAll(s, "$MTX_QUERY", query)
-
-	return s
+	return strings.NewReplacer(oldnew...).Replace(s)
 }
 
 type staticSource interface {
